@@ -13,6 +13,7 @@ Inductive op :=
 | OChoose (a : addr) (picks : list (option N))
 | OSet                                    (* state set directly by the harness: adopted *)
 | OTresp (peers : list addr)
+| OAccept (a : addr)                      (* an incoming connection from address a reaches spawn_peer_listener *)
 | OSkip.
 
 (* XBadHash: a reply that names a piece carried a piece_hash that is not the hash of that piece in the torrent *)
@@ -119,6 +120,9 @@ Definition k_step (prev : mgr) (s : ostep) : bool :=
       | Err, XErr => true          (* peers may have been partly updated before the error *)
       | _, _ => false
       end
+  | OAccept a =>
+      let '(m', sp) := accept_peer prev a in
+      mgr_eqb m' (s_state s) && spawns_agree sp (s_sp s)
   | OTresp ps =>
       let '(m', sp) := handle_tracker_resp prev (map (fun a => (a, [])) ps) in
       mgr_eqb m' (s_state s) && spawns_agree sp (s_sp s)
@@ -306,6 +310,10 @@ Definition o01_step (prev : mgr) (s : ostep) : bool :=
        opens at most one connection per listed address that is not connected yet *)
     && match s_op s with
        | OTresp ps => peer_spawns (s_sp s) <=? len (nodup N.eq_dec (filter (fun a => negb (is_some (pget (m_peers prev) a))) ps))
+       (* ... and an incoming connection from an address that is still connected gets no second task, nor may it touch
+          the entry of the live connection *)
+       | OAccept a => if is_some (pget (m_peers prev) a) then (peer_spawns (s_sp s) =? 0) && mgr_eqb prev (s_state s)
+                      else peer_spawns (s_sp s) <=? 1
        | _ => true
        end
   end.
@@ -397,6 +405,8 @@ Fixpoint run02 (prev : mgr) (tc : list (addr * bool)) (steps : list ostep) (k o 
                  | OCmd (CUnchoke a) => tc_put tc a false
                  | OCmd (CKill a) => tc_put tc a true
                  | OAdd a _ => tc_put tc a true
+                 | OAccept a => if is_some (pget (m_peers prev) a) then tc else
+                                if is_some (pget (m_peers (s_state s)) a) then tc_put tc a true else tc
                  | OSet => map (fun kp => (fst kp, p_choked (snd kp))) (m_peers (s_state s))
                  | _ => tc
                  end in
